@@ -112,8 +112,8 @@ def sendFuncClosed : Nat × Final := (1, .other)
         batch.batches = append(batch.batches, nodeBatch{node: node, …})
     }
     func (bat *batch2) Dispatch() error {
-        if len(bat.batches) == 0 { return nil }
-        if bat.err != nil { return bat.err }                   // before anything is submitted
+        if bat.err != nil { return bat.err }                   // before anything is submitted, and before the next test (510c7bb):
+        if len(bat.batches) == 0 { return nil }                // a batch whose every Put was refused is REPORTED (Model/ClusterFlush.lean)
         for i := range bat.batches {
             …
             if err := bat.pipeline.getNodePipeline(batch.node).Submit(req); err != nil { return err }
@@ -149,8 +149,8 @@ def puts (txn : Bool) : PutSt → List PutEv → PutSt
 /-- `failAt = some k`: the Submit of node batch `k` fails. Result: the node batches whose request
     was queued (they WILL be written to their node), and whether Dispatch returned nil. -/
 def dispatch (s : PutSt) (failAt : Option Nat) : List Nat × Bool :=
-  if s.nodes = [] then ([], true)
-  else if s.err = true then ([], false)
+  if s.err = true then ([], false)          -- since 510c7bb the recorded Put error is tested FIRST (Gen.C19Guards.dispatchErrFirst)
+  else if s.nodes = [] then ([], true)
   else match failAt with
     | some k => if k < s.nodes.length then (s.nodes.take k, false) else (s.nodes, true)
     | none => (s.nodes, true)
